@@ -20,7 +20,8 @@ EXTENDS Integers, Sequences, FiniteSets, TLC
 CONSTANTS Mode,          \* "free": the environment picks every answer;  "planned": Init picks a whole plan
           MaxHops,       \* free mode: at most this many 3xx answers
           Deviations,    \* named deviations of the Model (all repaired or hypothetical; used as non-vacuity gates):
-                         \* "D1", "D10", "AbsentOnly", "EmptyIsMissing", "NoJoin", "KeepBody303", "FirstHopOnly", "IgnorePort"
+                         \* "D1", "D10", "AbsentOnly", "EmptyIsMissing", "FrozensetNotNormalised", "NoJoin", "KeepBody303",
+                         \* "FirstHopOnly", "IgnorePort"
           CfgSet,        \* set of caller configurations
           PlanSet(_),    \* planned mode: the plans (sequences of 3xx answers) tried for a configuration
           HopAlphabet(_, _)   \* free mode: the 3xx answers possible for (cfg, current url)
@@ -71,9 +72,13 @@ WireKinds(m) == {x[1] : x \in m.hdrs}
 
 -----------------------------------------------------------------------------
 (* RULES                                                                                          *)
-(* A policy value: [kind, total, redirect, raise, remove, rmsp], kind in none/false/int/retry.    *)
+(* A policy value: [kind, total, redirect, raise, remove, rmsp, rmct], kind in none/false/int/retry. *)
+(* remove = the KINDS of header named by remove_headers_on_redirect (membership is case-insensitive on *)
+(* both sides); rmsp / rmct = how the caller wrote the names (spelling) and handed them over (list,    *)
+(* tuple, set, frozenset, DEFAULT | {extra}); "default" = the keyword was not passed.                  *)
 
-NonePol == [kind |-> "none", total |-> N, redirect |-> N, raise |-> TRUE, remove |-> DefaultRemove, rmsp |-> "default"]
+NonePol == [kind |-> "none", total |-> N, redirect |-> N, raise |-> TRUE, remove |-> DefaultRemove, rmsp |-> "default",
+            rmct |-> "default"]
 \* Request level first, then pool / manager constructor.  A request-level None -- the kwarg omitted, or passed
 \* explicitly as retries=None (c.reqnone) -- means "use the lower level".
 Pol(c) == IF c.reqpol.kind # "none" THEN c.reqpol ELSE c.clipol
@@ -167,11 +172,17 @@ RetryInit(total, redirect, raise, remove) ==
     THEN [total |-> total, redirect |-> 0, raise |-> FALSE, remove |-> remove]
     ELSE [total |-> total, redirect |-> redirect, raise |-> raise, remove |-> remove]
 RetryDefault == RetryInit(3, N, TRUE, DefaultRemove)
+\* Retry.__init__ lower-cases every name of remove_headers_on_redirect, whatever container carried them.
+\* Deviation FrozensetNotNormalised: a frozenset is taken for already normalised, so only names the caller happened
+\* to write in lower case (and the class default's own members) still match header.lower() in the strip loop.
+Normalised(q) == IF "FrozensetNotNormalised" \in Deviations /\ q.rmct \in {"frozenset", "defaultplus"} /\ q.rmsp # "lower"
+                 THEN (IF q.rmct = "defaultplus" THEN q.remove \cap DefaultRemove ELSE {})
+                 ELSE q.remove
 \* Retry.from_int(retries, redirect=flag, default=default)
 FromInt(p, flag, default) ==
     LET q == IF p.kind = "none" THEN default ELSE p IN
     IF q.kind = "none" THEN RetryDefault
-    ELSE IF q.kind = "retry" THEN RetryInit(q.total, q.redirect, q.raise, q.remove)
+    ELSE IF q.kind = "retry" THEN RetryInit(q.total, q.redirect, q.raise, Normalised(q))
     ELSE RetryInit(q.total, IF flag THEN N ELSE F, TRUE, DefaultRemove)        \* cls(retries, redirect=bool(redirect) and None)
 \* poolmanager.py: retries = kw.get("retries"); if None: the constructor's; if not a Retry: from_int
 MgrDerive(c) ==
